@@ -88,10 +88,20 @@ def run_dsep(rec, order, fails, stats):
 
 
 def run_sigma(rec, order, fails, stats):
+    graph = None
+    for cur, edge in history(rec, order):
+        if graph is None:
+            graph = build_graph(cur["g"], order)
+        else:
+            grow(graph, edge)
+            stats["grow_steps"] = stats.get("grow_steps", 0) + 1
+        run_sigma_on(graph, cur, edge, order, fails, stats)
+
+
+def run_sigma_on(graph, rec, edge, order, fails, stats):
     from y0.algorithm.separation.sigma_separation import are_sigma_separated
 
     g = rec["g"]
-    graph = build_graph(g, order)
     acyclic = rec["acyclic"]
     sep = {(t[0], t[1], tuple(sorted(t[2]))) for t in rec["sep"]}
     sig = {(t[0], t[1], tuple(sorted(t[2]))) for t in rec["sig"]}
@@ -110,6 +120,7 @@ def run_sigma(rec, order, fails, stats):
                               "exc": type(exc).__name__, "msg": str(exc)[:200]})
                 continue
             base = {"g": g, "a": a, "b": b, "c": list(c), "order": order, "ab": ab, "ba": ba,
+                    **({"after_adding": edge} if edge is not None else {}),
                     "acyclic": acyclic, "ideal": key(a, b, c) in sig, "dev": key(a, b, c) in dev}
             if ab != ba:
                 fails.append({**base, "clause": "asymmetric"})
@@ -194,9 +205,13 @@ def main():
     fails, stats = [], {"calls": 0, "separated": 0, "judgements": 0, "cyclic_calls": 0,
                         "cyclic_diagnostic_disagreements": 0, "graphs": len(recs)}
     fn = {"dsep": run_dsep, "sigma": run_sigma, "ci": run_ci}[mode]
+    import ser
     for rec in recs:
         for order in range(n_orders):
+            # order 2: observed nodes carry the names the library gives to latent parents (u_0, u_1, ...)
+            ser.set_naming("latent-like" if order == 2 else "V")
             fn(rec, order, fails, stats)
+    ser.set_naming("V")
     json.dump({"stats": stats, "fails": fails}, open(dst, "w"))
 
 
